@@ -71,6 +71,7 @@ inductive ErrClass where
   | missing       -- `%s: missing required %s field: %s`
   | notModule     -- `not a module or submodule: …`          (Modules.add; no position)
   | duplicate     -- `duplicate %s %s at %s and %s`          (Modules.add; no leading position)
+  | badName       -- `%s: invalid %s name %q: '@' separates name and revision`   (Modules.add, fix b0bffce)
   | crash         -- a Go panic
   deriving DecidableEq, Repr, Inhabited
 
@@ -300,6 +301,8 @@ def addTop (tbl : Schema) (dup : List TopMod → TopMod → Bool) (mods : List T
     match isSub with
     | none => .error ⟨.notModule, none⟩
     | some isSub =>
+      -- if strings.Contains(name, "@") { return fmt.Errorf("%s: invalid %s name …", Source(n), …) }
+      if a.name.contains 64 then .error ⟨.badName, a.src.bind (·.pos)⟩ else
       -- mod := n.(*Module)
       if a.ty ≠ tbl.moduleTy then .error crash else
       if dup mods ⟨isSub, a⟩ then .error ⟨.duplicate, none⟩
